@@ -52,7 +52,7 @@ def configs(tier, seed):
                 if tier == "quick" and pair == "tls+quic":
                     als = aliases[2:3]
                 for al in als:
-                    cd = pair == "quic+quic" and ((tier == "thorough" and sh in ((0, 8), (0, 0)) and al in aliases[:3]) or (tier == "quick" and sh == (0, 8) and al == als[-1]))
+                    cd = pair == "quic+quic" and ((tier == "thorough" and sh == (0, 8) and al in aliases[:2]) or (tier == "quick" and sh == (0, 8) and al == als[-1]))
                     npre = 2 if pair == "tls+tls" else (4 if cd else 3)      # the first merge decisions are fixed per configuration (parallelism)
                     for pre in range(1 << npre):
                         nm = "%s-v%d%s-%s-part%d" % (pair, ipv, "" if sh is None else "-cid%d.%d" % sh, al, pre)
